@@ -9,5 +9,5 @@ CONSTANTS
 INIT Init
 NEXT Next
 VIEW view
-INVARIANTS TypeOK InvAtMostOnce InvExactlyOnce InvNoOver InvTraffic InvNoPanic ClosedError LeakFree
+INVARIANTS TypeOK InvAtMostOnce InvExactlyOnce InvNoOver InvTraffic InvNoPanic ClosedError InvLeakFree
 CHECK_DEADLOCK FALSE
